@@ -25,6 +25,9 @@ func vRun(op string, in M) M {
 		src := vBytes(in["bytes"])
 		keep := append([]byte{}, src...)
 		dst := make(trinary.Trits, EncodedLen(len(src)))
+		for i := range dst { // a reused destination: every trit must be written
+			dst[i] = []int8{1, -1, 1, 0}[i%4]
+		}
 		var n int
 		p := vCatch(func() { n = Encode(dst, src) })
 		return M{"trits": vInts8(dst), "n": n, "panic": p,
